@@ -4,17 +4,6 @@ import GuppyVerif.Spec.C03
 namespace GuppyVerif.Builder
 open GuppyVerif.Surface
 
-/-- all variables occurring in an expression -/
-def vars : Expr → List Var
-  | .var x => [x]
-  | .num _ | .bool _ | .call0 _ => []
-  | .un _ e => vars e
-  | .bi _ l r => vars l ++ vars r
-  | .cmp2 _ _ l m r => vars l ++ vars m ++ vars r
-  | .and l r | .or l r => vars l ++ vars r
-  | .ite t b o => vars t ++ vars b ++ vars o
-  | .walrus x e => x :: vars e
-
 /-- stores that agree on user variables -/
 def agreeU (a b : Store) : Prop := ∀ x, a (.user x) = b (.user x)
 
@@ -291,17 +280,6 @@ theorem eval_trace_of_no_call (env : Env) (e : Expr) (hc : anyCall e = false) :
     · rw [ihb hc.1.2, iht hc.1.1]
     · rw [iho hc.2, iht hc.1.1]
   | walrus y e ih => intro s; simp only [anyCall] at hc; simp only [eval]; exact ih hc s
-
-theorem anyCall_of_resCalls (e : Expr) (h : anyCall e = false) : resCalls e = false := by
-  induction e with
-  | un o e ih =>
-    simp only [anyCall, Bool.or_eq_false_iff] at h
-    simp [resCalls, h.1, ih h.2]
-  | bi o l r ihl ihr =>
-    simp only [anyCall, Bool.or_eq_false_iff] at h
-    simp [resCalls, h.1.1, ihl h.1.2, ihr h.2]
-  | call0 f => simp [anyCall] at h
-  | _ => rfl
 
 theorem applyUn_swap' (env : Env) (o : UnOp) (v : Val) (a b : Store) (tr : Trace) :
     applyUn env o v (a, tr) = ((applyUn env o v (b, tr)).1, (a, (applyUn env o v (b, tr)).2.2)) := by
